@@ -1119,3 +1119,20 @@ if __name__ == "__main__":
         worker_main(sys.argv[2], sys.argv[3])
         sys.exit(0)
     sys.exit(2)
+
+
+# ---- system-level run spec (specs/NnvgRun*.tla): the recorded runs of the repository's own test suite and of a driver, judged for this property's clauses
+from .. import suite as g1  # noqa: E402
+
+_run_own, _replay_own = run, replay
+
+
+def run(ctx):  # noqa: F811
+    _run_own(ctx)
+    g1.run_suite_traces(ctx, g1.clauses_of("C11"), models=False)
+
+
+def replay(ctx, case):  # noqa: F811
+    if g1.is_case(case):
+        return g1.replay(ctx, case, g1.clauses_of("C11"))
+    return _replay_own(ctx, case)
